@@ -5,9 +5,11 @@ pub mod c02;
 pub mod c03;
 pub mod c04;
 pub mod c05;
+pub mod c06;
 pub mod c09;
 pub mod c10;
 pub mod c11;
+pub mod c18;
 pub mod ppcommon;
 
 pub fn by_id(id: &str) -> Option<Box<dyn Prop>> {
@@ -17,9 +19,11 @@ pub fn by_id(id: &str) -> Option<Box<dyn Prop>> {
         "C03" => Some(Box::new(c03::C03)),
         "C04" => Some(Box::new(c04::C04)),
         "C05" => Some(Box::new(c05::C05)),
+        "C06" => Some(Box::new(c06::C06)),
         "C09" => Some(Box::new(c09::C09)),
         "C10" => Some(Box::new(c10::C10)),
         "C11" => Some(Box::new(c11::C11)),
+        "C18" => Some(Box::new(c18::C18)),
         _ => None,
     }
 }
